@@ -86,10 +86,35 @@ UNITS += [
             dict(name="min_max_swapped", where="body:nearestR_prune", rx=r"\+ dist < MINR\[child\]", repl="+ dist < MAXR[child]")]),
 ]
 
+# ---------------------------------------------------------------- GNATNoThreadSafety: the member result queue is drained by every public operation
+NT = "src/ompl/datastructures/NearestNeighborsGNATNoThreadSafety.h"
+NTR = [
+    (r"nearestKInternal\(data, (\w+)\)", r"NKI(\1)", 0), (r"nearestRInternal\(data, radius\)", "NRI()", 0),
+    (r"const _T \*d = nearQueue_\.top\(\)\.second;", "TP d = NQ_TOP();", 0), (r"_T result = \*nearQueue_\.top\(\)\.second;", "T result = NQ_TOP();", 0),
+    (r"\*it = \*nearQueue_\.top\(\)\.second;", "nbh[it - 1] = NQ_TOP();", 0),
+    (r"for \(auto it = nbh\.rbegin\(\); it != nbh\.rend\(\); it\+\+, nearQueue_\.pop\(\)\)", "for (size_t it = nbh_size; it != 0; it--, NQ_POP())", 0),
+    (r"nbh\.resize\(nearQueue_\.size\(\)\);", "nbh_size = nq_size;", 0), (r"nbh\.clear\(\);", "nbh_size = 0;", 0), (r"postprocessNearest\(nbh\);", "postprocessNearest();", 0),
+    (r"nearQueue_\.pop\(\);", "NQ_POP();", 0), (r"!nearQueue_\.empty\(\)", "(nq_size != 0)", 0), (r"nearQueue_\.empty\(\)", "(nq_size == 0)", 0), (r"nodeQueue_\.empty\(\)", "1", 0),
+    (r"\*d != data", "DIFFERS(d)", 0), (r"removed_\.insert\(d\);", "REMOVED_INSERT(d);", 0), (r"removed_\.size\(\)", "removed_size", 0), (r"rebuildDataStructure\(\);", "REBUILD();", 0),
+    (r"throw Exception\(\"[^\"]*\"\);", "thrown = 1; return 0;", 0), (r"\bassert\(([^;]*)\);", r'__CPROVER_assert(\1, "assert in the code");', 0),
+]
+NTS = [
+    dict(name="remove", file=NT, sig=r"bool remove\(const _T &data\) override", rules=NTR, loops={"allow_uncontracted": True}),
+    dict(name="nearest", file=NT, sig=r"_T nearest\(const _T &data\) const override", rules=NTR, loops={"allow_uncontracted": True}),
+    dict(name="nearestK", file=NT, sig=r"void nearestK\(const _T &data, std::size_t k, std::vector<_T> &nbh\) const override", rules=NTR, loops={"allow_uncontracted": True}),
+    dict(name="nearestR", file=NT, sig=r"void nearestR\(const _T &data, double radius, std::vector<_T> &nbh\) const override", rules=NTR, loops={"allow_uncontracted": True}),
+    dict(name="postprocess", file=NT, sig=r"void postprocessNearest\(std::vector<_T> &nbh\) const", rules=NTR, loops={"allow_uncontracted": True}),
+]
+for fn, can in (("remove", [dict(name="pop_after_membership_test", where="body:remove", rx=r"NQ_POP\(\);\s*if \(DIFFERS\(d\)\)\s*return false;", repl="if (DIFFERS(d)) return false; NQ_POP();")]),
+                ("nearest", [dict(name="answer_left_in_queue", where="body:nearest", rx=r"NQ_POP\(\);", repl="")]), ("nearestK", [dict(name="queue_not_drained", where="body:postprocess", rx=r"it--, NQ_POP\(\)", repl="it--")]), ("nearestR", [])):
+    UNITS.append(dict(name="c10_gnatnts_" + fn + "_drains_queue", template="C10/gnat_nts.c", mode="plain", entry="h_nts_" + fn, sources=NTS, flags=PFLAGS, unwind=6, backend="minisat", timeout=600,
+                      **(dict(level="bounded", bound="<= 4 elements in the result queue") if fn in ("nearestK", "nearestR") else dict(level="proof")),
+                      functions=["NearestNeighborsGNATNoThreadSafety::" + fn] + (["NearestNeighborsGNATNoThreadSafety::postprocessNearest"] if fn in ("nearestK", "nearestR") else []), canaries=can))
+
 ASSUMPTIONS = ["GNAT pruning: distances are exact integers standing for reals (linear rule: valid over the reals iff over the integers; rounding not modelled); the range/radius envelopes contain the true pivot-to-element distances (the structure invariant maintained by add/split, assumed here); the metric satisfies the triangle inequality",
                "elements are addressed by slot; the distance function returns a fixed non-NaN value per element; std::sort is an assumed contract (result ordered by the comparator)", "<= 64 stored elements"]
 TRUSTED = ["extraction rewrite table of units/C10.py", "stubs in units/C10/linear.c", "CBMC 6.11 DFCC + cadical"]
-NOT_COVERED = ["NearestNeighborsGNAT as a whole structure (recursion over the tree, Node::add/split maintaining the envelopes, nearestK pruning with the moving k-th best, rebuilds, removal cache), GNATNoThreadSafety, NearestNeighborsSqrtApprox: only the node primitives and the radius pruning step of one node are checked",
+NOT_COVERED = ["NearestNeighborsGNAT as a whole structure (recursion over the tree, Node::add/split maintaining the envelopes, nearestK pruning with the moving k-th best, rebuilds, removal cache), GNATNoThreadSafety beyond the draining of its member result queue, NearestNeighborsSqrtApprox: only the node primitives and the radius pruning step of one node are checked",
                "nearestK of the linear structure (std::partial_sort), GreedyKCenters"]
 
 MISC_CPPS = []
